@@ -344,6 +344,9 @@ def run(tier: str) -> int:
     progs.append(("non_ascii", c13.HDR + "# T\u00fcr \u00f6ffnen \u2013 \u4e2d\u6587\nGrowLights[\"T\u00fcr \u00d6l\"].On = d0.Setting  # \u00e4\u00f6\u00fc\ndb.Setting = HASH(\"\u00e9t\u00e9\")\nx = d1.Setting\nif x > 1:\n    db.Mode = STR(\"\u00b5\")  # \u00b5 sign\n"))
     # characters that str.splitlines() treats as line ends inside string operands
     progs.append(("separator_chars", c13.HDR + "db.Setting = HASH(\"Tank\\x0cA\")\nx = d0.Setting\nif x > 1:\n    db.Mode = HASH(\"a\\x1db\")\nGrowLights[\"L\\u2028x\"].On = x\n"))
+    # register-looking words that are not registers: inside hashed names / display strings (verbose output
+    # prints them verbatim), in source comments and as part of identifiers
+    progs.append(("register_like_words", c13.HDR + "# r11 and r12 hold nothing here\nr13x = d0.Setting  # copies r14\ndb.Setting = HASH(\"r12\")\nGrowLights[\"r15 r9\"].On = r13x\nif r13x > 1:\n    db.Mode = STR(\"r10\")\n\ndef r8x(a):\n    db.Lock = a + HASH(\"r7\")\n\nr8x(r13x)\nr8x(2)\n"))
     # constructs that involve sp / ra / aliases next to general registers
     progs.append(("sp_ra_alias", c13.HDR + "h = WallHeater(d2, alias=True)\nk = GrowLight(d1, alias=\"LAMP\")\n\ndef f(a):\n    push(a)\n    t = pop() + sp\n    h.On = t\n    return t\n\nk.On = f(d0.Setting)\nk.Lock = f(2)\npush(ra)\n"))
     from .. import probes as _probes
